@@ -239,6 +239,26 @@ def match_sequence(rule_path: str, inputs: List[str], *, binary=False, ret="list
         return ("exc", type(exc).__name__, str(exc)[:300])
 
 
+def match_config_reused(rule_path: str, input_path: str, *, binary=False, ret="bool", search="first", only_addr=False, macros=None):
+    """ONE MatchConfig object handed to two MasterOfPuppets constructions in a row (a caller scanning with a prepared configuration):
+    returns ("ok", first result, second result) or ("exc", ...)."""
+    try:
+        cfg = gd.MatchConfig(
+            pattern_pathstr=rule_path, input_file=input_path,
+            input_file_type=gd.InputFileType.binary if binary else gd.InputFileType.assembly,
+            return_only_address=only_addr, return_mode=getattr(gd.MatchingReturnMode, RETURN[ret]),
+            matching_mode=getattr(gd.MatchingSearchMode, SEARCH[search]), macros=macros)
+        out = []
+        for _ in range(2):
+            v = jm.MasterOfPuppets(cfg).perform_matching()
+            out.append(list(v) if isinstance(v, list) else v)
+        return ("ok", out[0], out[1])
+    except BaseException as exc:  # noqa: BLE001
+        if isinstance(exc, (KeyboardInterrupt, SystemExit, MemoryError)):
+            raise
+        return ("exc", type(exc).__name__, str(exc)[:300])
+
+
 def compile_rule(rule_path: str, macros: Optional[List[str]] = None, full_message=False):
     try:
         return ("ok", y2r.Yaml2Regex(rule_path, macros_from_terminal=macros).produce_regex())
